@@ -490,7 +490,7 @@ theorem pull_cases {cfg : Cfg} {hash : Bytes → Digest} {name : Name} {reg : Re
     {st st' : Store} {o : Outcome} {log : Log}
     (h : pull cfg hash name reg sc st = (o, st', log)) :
     (o ≠ .ok () ∧ st' = st ∧ log.renamed = [] ∧
-      (∀ p, o = .panic p → ∃ k s net, (mrr cfg reg.realm (Reply.pass MBody.served) 10 k s net).1 = .panic p)) ∨
+      (∀ p, o = .panic p → ∃ k s net, (mrr cfg reg.realm (Reply.pass MBody.served) Policy.dflt k s net).1 = .panic p)) ∨
     (∃ net0 s, dlLoop cfg hash reg sc reg.manifest.all ⟨st, net0, [], []⟩ = (o, s) ∧ o ≠ .ok () ∧
       st' = s.st ∧ log.renamed = s.renamed) ∨
     (∃ net0 s ov st2, dlLoop cfg hash reg sc reg.manifest.all ⟨st, net0, [], []⟩ = (.ok (), s) ∧
@@ -561,8 +561,16 @@ theorem verifyPhase_any {cfg : Cfg} {hash : Bytes → Digest} {skip : List (Dige
 
 /-! ## the honest path (for `retry_can_succeed`) -/
 
-theorem mrr_pass {α : Type} (cfg : Cfg) (realm : Bytes) (a : α) (b k : Nat) (net : Net) :
-    mrr cfg realm (.pass a) (b + 1) (k + 1) [] net = (.ok a, [], net, 1) := by
+theorem mrr_pass {α : Type} (cfg : Cfg) (realm : Bytes) (a : α) (redir : α → Bool) (b k : Nat) (net : Net) :
+    mrr cfg realm (.pass a) ⟨b + 2, redir⟩ (k + 1) [] net = (.ok a, [], net, 1) := by
+  simp [mrr, popFollow, pop]
+
+theorem mrr_pass_dflt {α : Type} (cfg : Cfg) (realm : Bytes) (a : α) (k : Nat) (net : Net) :
+    mrr cfg realm (.pass a) Policy.dflt (k + 1) [] net = (.ok a, [], net, 1) := by
+  simp [mrr, popFollow, pop, Policy.dflt]
+
+theorem mrr_pass_direct (cfg : Cfg) (realm : Bytes) (a : DirRep) (k : Nat) (net : Net) :
+    mrr cfg realm (.pass a) ⟨11, DirRep.isRedirect⟩ (k + 1) [] net = (.ok a, [], net, 1) := by
   simp [mrr, popFollow, pop]
 
 theorem zeros_length (n : Nat) : (zeros n).length = n := by simp [zeros]
@@ -658,12 +666,12 @@ theorem downloadLayer_honest (cfg : Cfg) (reg : Registry) (d : Digest) (c : Byte
   obtain ⟨ps, n', hrun⟩ := runParts_plan cfg c hret c.length 0 (planSize cfg c.length) (zeros c.length) net.nc
     (planSize_pos cfg _ hmin hmax) (by omega) (by omega) (zeros_length _) (by simp)
   have h1 : (downloadLayer cfg reg d LScript.empty Partial.none net).1 = .ok c := by
-    simp only [downloadLayer, hc, Partial.none, LScript.empty, List.isEmpty_nil, if_true, mrr_pass,
+    simp only [downloadLayer, hc, Partial.none, LScript.empty, List.isEmpty_nil, if_true, mrr_pass_dflt, mrr_pass_direct,
       Option.getD_some, Option.getD_none, resize, List.take_nil, List.nil_append, List.length_nil,
       Nat.sub_zero, directLoop, replyFails, Bool.and_false, Bool.false_eq_true,
       if_false, plan, hrun]
   have h2 : (downloadLayer cfg reg d LScript.empty Partial.none net).2.1 = Partial.none := by
-    simp only [downloadLayer, hc, Partial.none, LScript.empty, List.isEmpty_nil, if_true, mrr_pass,
+    simp only [downloadLayer, hc, Partial.none, LScript.empty, List.isEmpty_nil, if_true, mrr_pass_dflt, mrr_pass_direct,
       Option.getD_some, Option.getD_none, resize, List.take_nil, List.nil_append, List.length_nil,
       Nat.sub_zero, directLoop, replyFails, Bool.and_false, Bool.false_eq_true,
       if_false, plan, hrun]
@@ -773,15 +781,15 @@ theorem authStep_no_panic {cfg : Cfg} (hfix : cfg.fixedChallenge = true) (realm 
   · simp
 
 theorem mrr_no_panic {α : Type} {cfg : Cfg} (hfix : cfg.fixedChallenge = true) (realm : Bytes)
-    (dflt : Reply α) (budget : Nat) (p : PanicSite) :
-    ∀ (k : Nat) (s : List (Reply α)) (net : Net), (mrr cfg realm dflt budget k s net).1 ≠ .panic p := by
+    (dflt : Reply α) (pol : Policy α) (p : PanicSite) :
+    ∀ (k : Nat) (s : List (Reply α)) (net : Net), (mrr cfg realm dflt pol k s net).1 ≠ .panic p := by
   intro k
   induction k with
   | zero => intro s net; simp [mrr]
   | succ k ih =>
     intro s net
     unfold mrr
-    generalize popFollow dflt budget s = pf
+    generalize popFollow dflt pol.redir pol.budget s = pf
     obtain ⟨r, s', n⟩ := pf
     cases r with
     | pass a => simp
@@ -793,7 +801,7 @@ theorem mrr_no_panic {α : Type} {cfg : Cfg} (hfix : cfg.fixedChallenge = true) 
       simp only
       split
       · rename_i net' _
-        generalize hm : mrr cfg realm dflt budget k s' net' = q
+        generalize hm : mrr cfg realm dflt pol k s' net' = q
         obtain ⟨x, s'', net'', m⟩ := q
         have := ih s' net'
         rw [hm] at this
@@ -813,13 +821,15 @@ theorem directLoop_no_panic {cfg : Cfg} (hfix : cfg.fixedChallenge = true) (real
   | succ f ih =>
     intro s net
     unfold directLoop
-    generalize hm : mrr cfg realm dflt 11 2 s net = r
+    generalize hm : mrr cfg realm dflt ⟨11, DirRep.isRedirect⟩ 2 s net = r
     obtain ⟨x, s', net', n⟩ := r
     split
     · simp
     · cases x with
       | ok a =>
         cases a
+        · simp
+        · simp
         · simp
         · simp
         · simp
